@@ -137,7 +137,9 @@ func (l *Lab) Gen(r *rand.Rand, o LabOpts) *LabCase {
 	nt := 2 + r.IntN(len(tops)-1)
 	tops = tops[:nt]
 	sort.Strings(tops)
-	cfgs := []cfgChoice{{}, {}, {}, {File: "custom"}, {File: "shared"}, {Ext: ".txt"}, {Dir: "snaps_rel"}, {Dir: l.AbsDir}, {Dir: l.AbsDir, File: "custom", Ext: ".json"}}
+	cfgs := []cfgChoice{{}, {}, {}, {File: "custom"}, {File: "shared"}, {Ext: ".txt"}, {Dir: "snaps_rel"}, {Dir: l.AbsDir}, {Dir: l.AbsDir, File: "custom", Ext: ".json"},
+		// directories that are not in clean form (trailing separator, `/./`, doubled separator)
+		{Dir: l.AbsDir + "/"}, {Dir: l.AbsDir + "/./"}, {Dir: "snaps_rel/"}, {Dir: strings.Replace(l.AbsDir, "/abs_snaps", "//abs_snaps", 1)}}
 	var addNode func(name string, depth int)
 	addNode = func(name string, depth int) {
 		n := &Node{}
@@ -299,6 +301,10 @@ func (l *Lab) Gen(r *rand.Rand, o LabOpts) *LabCase {
 	lc.Update = []string{"", "", "clean", "true", "other"}[r.IntN(5)]
 	lc.Sort = r.IntN(3) == 0
 	lc.Scenario.CleanSort = lc.Sort
+	if r.IntN(5) == 0 {
+		lc.Scenario.CleanTwice = true
+		lc.Classes["clean-called-twice"] = true
+	}
 	if lc.Sort {
 		lc.Classes["sort"] = true
 	}
@@ -503,6 +509,11 @@ func (l *Lab) Seed(r *rand.Rand, own *Owned, o LabOpts) *Seeded {
 				body := fmt.Sprintf("stale %d", i)
 				if o.Hostile {
 					body = hostileBody(r, i) + "stale"
+					if r.IntN(4) == 0 && len(ents) > 0 {
+						// a terminator-like line with surrounding blanks followed by the header of an entry of this file
+						live := ents[r.IntN(len(ents))].ID
+						body = "stale value\n" + []string{"--- ", " ---", "---\t", "  ---  "}[r.IntN(4)] + "\n[" + live + "]\nnot the kept value"
+					}
 				}
 				pos := r.IntN(len(ents) + 1)
 				ents = append(ents[:pos], append([]vkit.SnapEntry{{ID: id, Body: vkit.Escape(body)}}, ents[pos:]...)...)
